@@ -105,6 +105,8 @@ CONFIGS = [
     (["-t", "ext4", "-b", "1024", "-g", "1024", "-O", "sparse_super2,^resize_inode,^has_journal", "-N", "512"], "20M"),
     # ... and with 32-byte descriptors: the shrink keeps the number of descriptor blocks (resize2fs's short way through blocks_to_move)
     (["-t", "ext4", "-b", "1024", "-g", "1024", "-O", "sparse_super2,^resize_inode,^has_journal,^64bit", "-N", "512"], "20M"),
+    # sparse_super2 with a single backup, stored as s_backup_bgs = {0, 1}: growing must not take group 1's backup for the "last group" one
+    (["-t", "ext4", "-b", "1024", "-O", "sparse_super2", "-E", "num_backup_sb=1"], "40M"),
     # no ext_attr at first: the feature arrives in the primary superblock only (as the kernel sets it on the first setxattr)
     (["-t", "ext4", "-b", "1024", "-O", "^ext_attr", "-I", "128"], "33M"),
 ]
@@ -181,6 +183,8 @@ def tool_case(src, mexe, idx, seed, tier):
         plan = ["primary_only"] + ([[T("e2fsck/e2fsck"), "-fyD", img]] if (idx // len(CONFIGS)) % 2 else [])
     if wide:
         plan = ["shrink"] + plan[:1]
+    if "num_backup_sb=1" in opts:
+        plan = ["grow"] + plan[:1]
     for m in plan:
         if m == "dirty_journal_tune":
             # a committed transaction waits in the journal: tune2fs replays it first (the journal code reopens the filesystem)
@@ -351,7 +355,7 @@ def run(res, replay=None):
     res.cov["evaluations"] += rows
     res.sample({"sweep_config": cfgs[3], "columns": "group has_super super_blk old_desc_blk new_desc_blk used_blks", "first_rows": hout[:4]})
     # ---- B. tools
-    n = 22 if tier == "quick" else 220
+    n = 26 if tier == "quick" else 260
     with concurrent.futures.ThreadPoolExecutor(8) as ex:
         outs = list(ex.map(lambda i: tool_case(src, mexe, i, seed, tier), range(n)))
     bad = []
